@@ -913,8 +913,79 @@ def r179(facts, res):
     res.floor(R, 'edge/target comparisons', n, 1)
 
 
+def r1711(facts, res):
+    """A lazily filled cache cell has ONE computation.  SentenceGenerator keeps the cost tables in `RefCell<Option<Vec<_>>>`
+    fields that each query fills on first use (`get_or_insert_with(|| compute(..))`).  If two sites fill the same cell with
+    different computations (or one computation is stored in two cells that are read as different things) the answer of a
+    query depends on which query ran first: min-cost asked after max-cost returns maximum costs.  Decided as a cross-site
+    agreement: field -> set of library functions called by the filling closure must be single-valued, and injective."""
+    R = 'R17.11'
+    fills = {}   # field -> {callee set: [site]}
+    n = 0
+    for b in facts.lib_bodies(['cfgrammar']):
+        if 'SentenceGenerator' not in (b.impl_of or '') or b.kind == 'closure' or b.from_expansion:
+            continue
+        for bb, t in b.calls():
+            if cname(t) not in ('get_or_insert_with', 'get_or_init', 'get_or_insert', 'insert', 'replace', 'get_mut_or_init'):
+                continue
+            if not t['args']:
+                continue
+            l = op_local(t['args'][0])
+            if l is None:
+                continue
+            root, projs, via = b.root(l, through=Body.THROUGH + ('borrow_mut', 'borrow', 'get_mut', 'as_mut'), stop_named=False)
+            fld = None
+            for pr in projs:
+                for q in pr:
+                    if isinstance(q, dict) and q.get('name'):
+                        fld = q['name']
+            if root != 1 or fld is None:
+                continue
+            # what fills it: the library functions called by the closure (or, for a value argument, by its definition)
+            comp = set()
+            if len(t['args']) > 1:
+                al = op_local(t['args'][1])
+                for _bb, kind, rv in b.defs().get(al, ()) if al is not None else ():
+                    if kind == 'stmt' and 'agg' in rv and isinstance(rv['agg'], dict) and 'closure' in rv['agg']:
+                        cb = facts.bodies.get(rv['agg']['closure'])
+                        if cb is not None:
+                            for _x, ct in cb.calls():
+                                c = callee_of(ct)
+                                if (c.get('crate') or '') in ('cfgrammar',) or (c.get('path') or '').startswith('cfgrammar::'):
+                                    comp.add(strip_generics(c.get('path') or c['name']))
+                    elif kind == 'call':
+                        c = callee_of(rv)
+                        if (c.get('path') or '').startswith('cfgrammar::'):
+                            comp.add(strip_generics(c.get('path') or c['name']))
+            if not comp:
+                continue
+            n += 1
+            fills.setdefault(fld, {}).setdefault(frozenset(comp), []).append((b, bb))
+    by_comp = {}
+    for fld, d in sorted(fills.items()):
+        sites = [x for v in d.values() for x in v]
+        key = 'cache-cell:%s' % fld
+        for comp in d:
+            by_comp.setdefault(comp, set()).add(fld)
+        if len(d) > 1:
+            minority = min(d.items(), key=lambda kv: len(kv[1]))
+            mb, mbb = minority[1][0]
+            res.bad(R, key, loc_of(mb, mbb), 'the cell `%s` is filled by different computations at different sites (%s): whichever query runs first decides what the others read; '
+                    'a site that differs: %s' % (fld, ' / '.join('%s x%d' % (','.join(sorted(x.split('::')[-1] for x in c)), len(v)) for c, v in sorted(d.items(), key=lambda kv: -len(kv[1]))),
+                                                  strip_generics(mb.path).split('::')[-1]), {'function': mb.path})
+        else:
+            comp = list(d)[0]
+            res.ok(R, key, loc_of(*sites[0]), 'filled at %d site(s), always by %s' % (len(sites), ','.join(sorted(x.split('::')[-1] for x in comp))))
+    for comp, flds in sorted(by_comp.items(), key=lambda kv: sorted(kv[0])):
+        if len(flds) > 1:
+            res.bad(R, 'cache-computation:%s' % ','.join(sorted(x.split('::')[-1] for x in comp)), 'cfgrammar/src/lib/yacc/grammar.rs',
+                    'one computation is stored in several cells (%s) that the queries read as different tables' % ', '.join(sorted(flds)))
+    res.floor(R, 'lazy cache fills in SentenceGenerator', n, 2)
+
+
 def run(facts, res):
     r179(facts, res)
+    r1711(facts, res)
     r178(facts, res)
     r176(facts, res)
     r177(facts, res)
